@@ -1229,13 +1229,16 @@ func (g *jsGen) substmt(depth int) *JSNode {
 	if g.r.Intn(2) == 0 {
 		return g.block(depth)
 	}
-	switch g.r.Intn(4) {
+	switch g.r.Intn(5) {
 	case 0:
 		return &JSNode{K: "empty"}
 	case 1:
 		if g.inFunc > 0 {
 			return &JSNode{K: "return", Kids: []*JSNode{g.expr(3, pComma)}}
 		}
+	case 2:
+		// a var statement is a Statement, not a Declaration: if (a) var x = 1; else var y
+		return g.varDecl("var", depth, false)
 	}
 	return &JSNode{K: "exprstmt", Kids: []*JSNode{g.expr(2, pComma)}}
 }
